@@ -145,6 +145,14 @@ var sidPool = func() []string {
 		}
 		p = append(p, string(b))
 	}
+	// servers that share the first half of their UUID and differ in several of the last bytes (hand-assigned /
+	// numbered server_uuid values): the canonical order is bytewise over all 16 bytes
+	base := []byte(p[0])
+	for _, tail := range [][2]byte{{0x00, 0x01}, {0x01, 0x00}, {0x01, 0x01}} {
+		b := append([]byte(nil), base...)
+		b[14], b[15] = tail[0], tail[1]
+		p = append(p, string(b))
+	}
 	return p
 }()
 
@@ -659,7 +667,22 @@ func genC19(r *RNG, tier string) []Case {
 			x, _, err := replication.VerifParseGTIDSet("MySQL56", string(unhx(im)))
 			return err == nil && x.Equal(s.impl()) && s.impl().Equal(x), "parse(String(s)) is not equal to s"
 		})
-		simple("g56 op=sidblock set="+s.abs(), "sidblock", func() string { return hx(s.impl().SIDBlock()) }, func(im string) (bool, string) {
+		other56 := randCanonSet(r, true)
+		simple("g56 op=sidblock set="+s.abs(), "sidblock", func() string {
+			b := s.impl().SIDBlock()
+			first := hx(b)
+			// the caller keeps the block while other sets are printed / encoded
+			_ = other56.impl().SIDBlock()
+			_ = other56.impl().String()
+			_ = s.impl().String()
+			if hx(b) != first {
+				return "block-overwritten-by-a-later-call:" + first + "->" + hx(b)
+			}
+			return first
+		}, func(im string) (bool, string) {
+			if strings.HasPrefix(im, "block-overwritten") {
+				return false, "the SID block returned earlier changed when another set was encoded / printed"
+			}
 			back, err := replication.NewMysql56GTIDSetFromSIDBlock(unhx(im))
 			if err != nil || !back.Equal(s.impl()) {
 				return false, "the SID-block form does not decode back to an equal set"
